@@ -106,6 +106,30 @@ def extraBeliefs (S : Nat) : List Vec :=
   let dn : Vec := mkVec S (fun s => ((S - s : Nat) : Rat) / tot)
   [c, up, dn]
 
+/-- exact stand-in for `WitnessLP::findWitness`: the candidate minus the envelope of U is concave piecewise linear, so its maximum over the
+    simplex is attained at a corner or at a vertex of U's partition; a positive maximum is a witness point -/
+def exactWitness (S : Nat) (U : List Vec) (cand : Vec) : Option Vec :=
+  if U.isEmpty then some (mkVec S (fun _ => 1 / (S : Rat))) else
+  let pts := (List.range S).map (cornerB S) ++ partitionVertices S U
+  let best := pts.foldl (fun (acc : Option (Vec × Rat)) x =>
+      let d := dot S x cand - env S U x
+      match acc with
+      | none => some (x, d)
+      | some (_, d0) => if d0 < d then some (x, d) else acc) none
+  match best with
+  | some (x, d) => if 0 < d then some x else none
+  | none => none
+
+/-- choice form of `crossSumBestAtBelief(w, projections[a], a)` -/
+def bestChoice (S O : Nat) (P : Nat → List Vec) (w : Vec) : Choice :=
+  (List.range O).map (fun o => (P o).findIdx (fun α => α == bestAtV S w (P o)))
+
+def witnessModelUnion (m : Model) (τ : Rat) (prev : List Vec) (fuel : Nat) : List Vec × Bool :=
+  (List.range m.A).foldl (fun (acc : List Vec × Bool) a =>
+    let P := projList m τ prev a
+    let st := wLoop m.S m.O P (exactWitness m.S) (bestChoice m.S m.O P) fuel (wInit m.O)
+    (acc.1 ++ st.U.map (choiceSum m.S m.O P), acc.2 && st.agenda.isEmpty)) ([], true)
+
 def vf : P String := do
   let solver ← P.tok; let _rep ← P.tok; let dyadic ← P.bool
   let m ← pomdpP; let h ← P.nat; P.bar
@@ -184,6 +208,64 @@ def vf : P String := do
         else if exact && i != e then
           v := v.diffIf true s!"{solver} value_not_bit_exact b=[{showVec b}] impl={ratStr i} expectimax={ratStr e}"
     return v
+  -- LinearSupport: the stopping test (hypothesis `hX` of `linear_support_exact_of_cover`, conclusion of `ls_break_tested`) at the corners and
+  -- at every exact vertex of the partition of EVERY returned timestep, against the one-step backup of the previous returned list
+  let v := if solver != "LinearSupport" then v else Id.run do
+    let mut v := v
+    let mut prev : List Vec := [vzero m.S]
+    let mut t := 0
+    for cur in vecLists do
+      if t > 0 && !cur.isEmpty && cur.length ≤ 24 then
+        let pts := (List.range m.S).map (cornerB m.S) ++ partitionVertices m.S cur
+        for x in pts do
+          let tv := maxTo (m.A - 1) (qOf m (env m.S prev) x)
+          let cv := env m.S cur x
+          if !(closeQ tol9 tv cv) && decide (cv < tv) then
+            v := v.failIf true s!"{solver} stopping_test_violated t={t} x=[{showVec x}] backup={ratStr tv} current={ratStr cv}"
+      prev := cur
+      t := t + 1
+    return v
+  -- LinearSupport: the agenda-loop MODEL (`lsLoop`, Model/POMDP.lean) run with an exact vertex oracle (all vertices of the partition of
+  -- good ∪ {new support}; corners excluded like the code) and the code's acceptance test, from the previous RETURNED list; its final
+  -- set must be the returned list of that timestep as a set of vectors (1e-9).
+  -- (only on bit-exact instances: elsewhere rounding noise of 1e-17 decides ties between vectors that are equal in exact arithmetic)
+  let v := if solver != "LinearSupport" || !exact then v else Id.run do
+    let mut v := v
+    let mut prev : List Vec := [vzero m.S]
+    let mut t := 0
+    for cur in vecLists do
+      if t > 0 && !cur.isEmpty && cur.length ≤ 12 && backupSize m τ prev ≤ 30000 then
+        let acc : Rat → Bool := fun d => decide (0 < d) && !(AITB.MDP.checkEqualGeneral d 0)
+        let interior : List Vec → List Vec := fun l => l.filter (fun x => !((List.range m.S).any (fun s => decide (x.get s > 1 - 1 / 100000))))
+        let oracle : Vec → List Vec → List Vec := fun sup good => interior (partitionVertices m.S (good ++ [sup]))
+        let sup := bestBackupAtV m τ prev
+        let g0 := lsCorners m sup m.S
+        let st := lsLoop m sup acc oracle 64 ⟨g0, [], [], interior (partitionVertices m.S g0)⟩
+        let modelInImpl := st.good.all (fun α => memVec false m.S cur α)
+        let implInModel := cur.all (fun α => memVec false m.S st.good α)
+        v := { v with tag := v.tag ++ " ls_loop_model" }
+        if !(modelInImpl && implInModel) then
+          v := v.diffIf true s!"{solver} loop_model_set t={t} model={st.good.length} impl={cur.length} modelInImpl={modelInImpl} implInModel={implInModel} agendaLeft={st.agenda.length}"
+      prev := cur
+      t := t + 1
+    return v
+  -- Witness: the agenda-loop MODEL (`wLoop`) run with an exact stand-in for the LP (`exactWitness`) from the previous RETURNED list, on
+  -- small bit-exact instances: it must empty its agenda within the fuel (hypothesis `hdone` of `witness_loop_complete`), every returned
+  -- vector must be among the vectors it collects, and its union must have the returned envelope at the harness beliefs
+  let v := if solver != "Witness" || !exact || m.S > 3 then v else Id.run do
+    let mut v := v
+    let mut prev : List Vec := [vzero m.S]
+    let mut t := 0
+    for cur in vecLists do
+      if t > 0 && !cur.isEmpty && prev.length ≤ 4 then
+        let r := witnessModelUnion m τ prev 600
+        v := { v with tag := v.tag ++ " w_loop_model" }
+        v := v.diffIf (!r.2) s!"{solver} loop_model_agenda_not_empty t={t}"
+        v := v.diffIf (r.2 && !(cur.all (fun α => memVec false m.S r.1 α))) s!"{solver} loop_model_missing_vector t={t} model={r.1.length} impl={cur.length}"
+        v := v.diffIf (r.2 && !(bs.all (fun b => closeQ tol9 (env m.S r.1 b) (env m.S cur b)))) s!"{solver} loop_model_envelope t={t}"
+      prev := cur
+      t := t + 1
+    return v
   -- findBestAtPoint's value as computed by the library at the harness beliefs
   let v := v.diffIf (vals.length != bs.length) s!"{solver} findBestAtPoint count"
   let v := (bs.zip vals).foldl (fun v (bv : Vec × Rat) =>
@@ -205,8 +287,8 @@ def rtbss : P String := do
   let e := expectimax m h b
   let validBound := allLt m.S (fun s => allLt m.A (fun a => decide (m.R s a ≤ maxR)))
   if !validBound then return "skip maxR_not_an_upper_bound"
-  -- the truncated recursion (observations of probability ≤ 1e-6 skipped) must coincide with the property's definition on this input
-  if !(closeQ (tol9 / 1000) (expectimaxT m τ h b) e) then return "skip ill_conditioned"
+  -- hypothesis of `rtbss_full`: no observation probability in the lookahead tree lies in (0, 1e-6]
+  if !(skipFreeB m τ h b) then return "skip ill_conditioned"
   let neg := decide (maxR < 0)
   let v : Verdict := { tag := s!"rtbss h{h}" ++ (if neg then " negative_maxR" else "") }
   let sfx := if neg then "_negative_maxR" else ""
@@ -227,21 +309,62 @@ def activeCount (S : Nat) (Γ : List Vec) (x : Vec) : Nat :=
   let e := env S Γ x
   (Γ.filter (fun α => dot S x α == e)).length
 
+/-- |det| of an n×n rational matrix relative to the product of its row scales (max |entry|): a crude exact conditioning measure -/
+def relDet (n : Nat) (rows : Array (Array Rat)) : Rat := Id.run do
+  let mut a := rows
+  let mut det : Rat := 1
+  let mut scale : Rat := 1
+  for r in [0:n] do
+    let row := a.getD r #[]
+    let mx := (List.range n).foldl (fun acc j => if acc < absQ (row.getD j 0) then absQ (row.getD j 0) else acc) 0
+    scale := scale * (if mx == 0 then 1 else mx)
+  for c in [0:n] do
+    let mut piv : Option Nat := none
+    for r in [c:n] do
+      if piv.isNone && (a.getD r #[]).getD c 0 != 0 then piv := some r
+    match piv with
+    | none => return 0
+    | some p =>
+      let rp := a.getD p #[]
+      let rc := a.getD c #[]
+      a := (a.setIfInBounds p rc).setIfInBounds c rp
+      let pv := rp.getD c 0
+      det := det * pv
+      for r in [c+1:n] do
+        let rr := a.getD r #[]
+        let f := rr.getD c 0 / pv
+        if f != 0 then
+          a := a.setIfInBounds r ((List.range n).map (fun j => rr.getD j 0 - f * rp.getD j 0)).toArray
+  return absQ det / scale
+
 /-- `verts S n planes | k vertices`: the contract of `findVerticesNaive` that LinearSupport relies on — every vertex of the partition
     induced by the planes (interior, or on an edge/face of the simplex; corners excluded) is among the returned points.  Only *simple*
     vertices are demanded (exactly S − #zero-coordinates planes active, no coincidence), so degenerate systems cannot raise an alarm. -/
 def verts : P String := do
+  let dyadic ← P.bool
   let S ← P.nat; let n ← P.nat
   let planes ← P.rep (vecP S) n; P.bar
   let k ← P.nat
   let vs ← P.rep (do let x ← vecP S; let v ← P.q; pure (x, v)) k
   P.eof
+  -- non-dyadic planes can be dependent up to rounding (1e-16): the exact solve then returns a "vertex" of a numerically singular
+  -- system which no floating-point enumeration can be asked to reproduce — such instances are not judged
+  if !dyadic then return "skip ill_conditioned"
   let exactVs := partitionVertices S planes
   let simple := exactVs.filter (fun x =>
     let zeros := ((List.range S).filter (fun s => x.get s == 0)).length
     -- "We do NOT return simplex corners": the code drops points whose largest coordinate is within 1e-6 of 1; stay clear of that band
     let nearCorner := (List.range S).any (fun s => decide (x.get s > 1 - 1 / 100000))
-    zeros < S - 1 && activeCount S planes x + zeros == S && !nearCorner)
+    -- conditioning: the S equations that define x (active planes pairwise equal, zero coordinates, sum = 1) must be independent with a
+    -- margin; planes that are dependent up to rounding (1e-16) define no vertex a floating-point enumeration can be asked to find
+    let e := env S planes x
+    let act := planes.filter (fun α => dot S x α == e)
+    let a0 := act.headD #[]
+    let rowsEq := (act.drop 1).map (fun aj => ((List.range S).map (fun s => a0.get s - aj.get s)).toArray)
+    let rowsD := ((List.range S).filter (fun s => x.get s == 0)).map (fun d => ((List.range S).map (fun s => if s == d then (1 : Rat) else 0)).toArray)
+    let rowSum := ((List.range S).map (fun _ => (1 : Rat))).toArray
+    let wellCond := decide (relDet S (rowsEq ++ rowsD ++ [rowSum]).toArray ≥ 1 / 1000000)
+    zeros < S - 1 && activeCount S planes x + zeros == S && !nearCorner && wellCond)
   let tol : Rat := 1 / 1000000
   let found (x : Vec) : Bool := vs.any (fun (p : Vec × Rat) => allLt S (fun s => decide (absQ (p.1.get s - x.get s) ≤ tol)))
   let v : Verdict := { tag := s!"verts S{S}" ++ (if simple.isEmpty then " trivial" else "") }
